@@ -493,6 +493,73 @@ def symbol_traces(ctx, tier, target_cfgs):
     ctx.cov["symbol_kinds_traced"] = kinds
 
 
+def rangecoder_traces(ctx, tier, target_cfgs):
+    """Real-width binding of RangeCoder.tla: the limb formulation is checked equal to the integer formulation by TLC
+    at reduced width (RangeCoderLimbEq), then validates per-bit traces of the real encoder and decoder."""
+    quick = tier == "quick"
+    base = {"ShiftBits": "2", "RangeBits": "8", "ModelBits": "3", "MoveBits": "2", "MaxBits": "5" if quick else "6", "NCtx": "1",
+            "MaxDirect": "3", "AsmClamp": "FALSE", "MaxCut": "2"}
+    d, mod, cfg = core.write_model("RangeCoderLimbEq", base, invariants=("EncLimbAgree", "DecLimbAgree"))
+    ctx.tlc(mod, cfg, name="RangeCoderLimbEq", cwd=d, workers=6, timeout=900)
+    rnd = random.Random(ctx.seed ^ 0xB175)
+    jobs = []
+    for i in range(3 if quick else 24):
+        jobs.append(symlib.roundtrip_job(f"rc{i}", "lzma", {"preset": rnd.choice([0, 3, 6, 9]), "dict": 65536},
+                                         {"class": rnd.choice(["text", "random", "repeat_far", "mixed", "zeros"]),
+                                          "len": rnd.choice([0, 1, 200, 500] if quick else [0, 1, 300, 1500, 4000]), "seed": rnd.randrange(1 << 30)},
+                                         bits=True, emit_hex=True, marker=rnd.random() < 0.5))
+    cfgs = dict(list(target_cfgs.items())[:1]) if quick else target_cfgs
+    for cfg_name, (features, target) in cfgs.items():
+        res = symlib.run_sym_jobs(jobs, features=features, target=target)
+        ctx.add("evaluations", len(res))
+        v = symlib.validate_rangecoder(ctx, res, name=cfg_name)
+        if v["runs"] == 0:
+            raise ToolError("vacuous range coder trace validation: no run produced bit events")
+        if v["accepted"]:
+            ctx.add("traces_validated", v["runs"])
+        else:
+            ctx.note_drift(f"Trace_RangeCoder rejects the per-bit trace of build {cfg_name} after event {v['reached']}/{v['total']}: {v.get('next_event')}")
+        ctx.cov.setdefault("rangecoder_traces", {})[cfg_name] = {"runs": v["runs"], "events": v["events"], "accepted": v["accepted"]}
+        log(f"[trace] range coder, build {cfg_name}: {v['runs']} runs, {v['events']} bit events accepted={v['accepted']}")
+
+
+def binding_demos(ctx, target_cfgs):
+    """DESIGN.md section 8: for each trace specification one recorded trace with a corrupted field and one with a removed
+    event must be REJECTED (else the trace specification binds nothing)."""
+    import copy
+    jobs = [symlib.roundtrip_job("bd0", "lzma", {"preset": 6, "dict": 65536}, {"class": "text", "len": 1500, "seed": 11}, reads=[7, 0, 300],
+                                 bits=True, emit_hex=True)]
+    r = symlib.run_sym_jobs(jobs)[0]
+    ev = r["events"]
+    out = {}
+    # symbols: corrupt one reps entry of a decoder event / drop one decoder event
+    e1 = copy.deepcopy(ev)
+    d = [e for e in e1 if e.get("side") == "D" and e.get("kind") == 1][3]
+    d["r"][2] += 1
+    out["symbols_corrupt"] = not symlib.validate_symbols(None, [e1])["accepted"]
+    e2 = [e for e in ev if e is not [x for x in ev if x.get("side") == "D" and x.get("kind") == 0][5]]
+    out["symbols_removed"] = not symlib.validate_symbols(None, [e2])["accepted"]
+    # lz decoder: corrupt a flush field / drop a set_limit event
+    e3 = copy.deepcopy(ev)
+    f = [e for e in e3 if e.get("op") == "flush"][4]
+    f["full"] += 1
+    out["lzdecoder_corrupt"] = not symlib.validate_lzdecoder(None, [e3])["accepted"]
+    e4 = [e for e in ev if e is not [x for x in ev if x.get("op") == "limit"][6]]
+    out["lzdecoder_removed"] = not symlib.validate_lzdecoder(None, [e4])["accepted"]
+    # range coder: corrupt the cache of one encoder event / drop one decoder bit
+    r5 = copy.deepcopy(r)
+    [e for e in r5["events"] if e.get("side") == "RE"][100]["c"] ^= 1
+    out["rangecoder_corrupt"] = not symlib.validate_rangecoder(None, [r5])["accepted"]
+    r6 = copy.deepcopy(r)
+    victim = [e for e in r6["events"] if e.get("side") == "RD"][200]
+    r6["events"] = [e for e in r6["events"] if e is not victim]
+    out["rangecoder_removed"] = not symlib.validate_rangecoder(None, [r6])["accepted"]
+    ctx.cov["binding_demonstrations_rejected"] = out
+    log(f"[binding] corrupted / truncated traces rejected: {out}")
+    if not all(out.values()):
+        raise ToolError(f"a trace specification accepted a corrupted trace: {out}")
+
+
 def design_checks(ctx, tier):
     quick = tier == "quick"
     d, mod, cfg = core.write_model("LzmaSymbols", {"Dists": "{0,1,5,9}", "MaxLen": "5" if quick else "6"},
@@ -613,6 +680,9 @@ def run(tier, replay=None):
     # ---- stage 3: traces of both std configurations against the same specifications
     symbol_traces(ctx, tier, std_cfgs)
     classes |= lzdecoder_stage(ctx, tier, std_cfgs)
+    rangecoder_traces(ctx, tier, std_cfgs)
+    if not quick:
+        binding_demos(ctx, std_cfgs)
     # ---- stage 4: transcript differential over the four builds
     cases = case_list(ctx.seed, 500 if quick else 6000, tier)
     c1, n1, d1 = run_transcripts(ctx, bins, cases, "grid")
